@@ -29,6 +29,10 @@ PROP = {
         "GunYu.Props.C13.emitted_content",
         "GunYu.Props.C13.drain_bound",
         "GunYu.Props.C13.drain_reaches",
+        "GunYu.Props.C13.bookclean_derived",
+        "GunYu.Props.C13.no_loop_no_false_suppression",
+        "GunYu.Props.C13.drain_reaches_global",
+        "GunYu.Props.C13.D31_counterexample",
     ],
     "gens": ["c18", "c10"],
     "expected_facts": {
@@ -48,7 +52,7 @@ PROP = {
             "execBisyncUnit (sync and journal mode, real frontier coordinator onCommitted/flush) / execBisyncRdbUnit / checkpoint-hash and "
             "namespace-mode writes through a real RedisConn into the shared target double whose request log is executed at the destination site; "
             "10-70 events per history (client commands and transactions at both sites incl. transactions of 9-40 and 65-200 commands, clients poking the reserved namespace, ticks incl. >24 h, "
-            "expiry visits incl. marker keys, link steps, snapshot units, bookkeeping), then a drain. Monitors: nothing the tool wrote comes back "
+            "expiry visits incl. marker keys, link steps, restarts of either link (rewind to the last committed unit, also once in the drain), snapshot units, bookkeeping), then a drain. Monitors: nothing the tool wrote comes back "
             "as a unit or halts the opposite link; every vouched client/expiry block comes out; each applied exactly once; units committed during "
             "the drain <= pending client blocks; commit = one MULTI of marker + business + record(+index); every stand-alone request the tool "
             "issues has a form in the model. distinct_nontrivial is not used (histories are compared whole)",
@@ -71,13 +75,22 @@ PROP = {
                     "command names are ASCII (Go's Unicode case folding outside the model)",
                     "parser, commit order, predicates tied by correspondence; key constructors, infix literals, TTL regenerated; predicate bodies compared with expectation"],
     "partial": ["KNOWN FINDING D31 (known_findings.d/C13.json): incremental bisync replay commits every unit in the connection's database (0) whatever database "
-                "it was written in; model and theorems have one keyspace per site, i.e. they hold per database only where the client writes are in database 0",
+                "it was written in; model and theorems have one keyspace per site, i.e. they hold per database only where the client writes are in database 0. The full "
+                "statement with databases (applied_in_source_db_stmt: every unit is committed in the database its commands were written in) is stated and REFUTED in Lean "
+                "(D31_counterexample, decide-checked: SELECT 3; SET k0 v => one unit, no commit transaction of any kind selects a database)",
                 "the world theorems range over client commands with NO argument under a reserved prefix (ClientOK), i.e. a value equal to a control KEY is excluded there "
                 "(marker JSON values are admitted); the block-level theorem foreign_never_suppressed covers such values (hypothesis on keys + first argument only)",
                 "bookkeeping_skipped covers stand-alone requests (how the code issues every one of them: pinned by the bookkeeping-inside-multi monitor); a MULTI block of "
                 "redis-gunyu-bisync: keys without a marker would NOT be skipped (model event toolRaw reproduces the echo)",
-                "exactly_once_and_quiesce assumes per bookkeeping event that the request propagates as itself or not at all (BookClean: its keys carry no "
-                "TTL — the tool sets none on non-marker keys and clients stay out of the namespace); that store invariant is not derived",
+                "CLOSED (was: BookClean assumed per event): no_loop_no_false_suppression / bookclean_derived range over event lists whose events satisfy EvOK' — a "
+                "condition on each event ALONE — and derive BookClean from the global invariant GInv = WInv + NsTtl (the only namespace keys with an expiry are marker "
+                "keys of brace-free checkpoint names: only the first argument of SET/(P)EXPIRE(AT)/RESTORE can gain an expiry, frame lemma over all 12 propagate families) "
+                "+ RInv (resume position) + brace-free link names; restarts / reconnects of either syncer (Ev.restart: resume anywhere between the last committed unit and "
+                "the read position, fresh parser, stop forgotten) are events of that theorem and of the harness histories. What EvOK' still asks: checkpoint names brace-free "
+                "(as NewBisyncCheckpointName makes them; also for the names inside journal/index/latest bookkeeping requests), snapshot commands with their first argument "
+                "outside the namespace (the snapshot filter withholds reserved keys, C10), bookkeeping requests other than a marker's expiry (that is Redis's doing: Ev.expire); "
+                "exactly_once_and_quiesce (GoodRun, BookClean assumed, no restarts) is kept unchanged",
+                "that a restarted syncer resumes at or behind its last committed unit (Ev.restart's guard cpos <= p <= pos) is C14's guarantee, taken as the event's definition here",
                 "foreign_never_suppressed_stmt (hypothesis on keys only) is kept as a def: the code's namespace test looks at the first argument of every "
                 "command, so a key-less command whose first argument carries a reserved prefix (PUBLISH redis-gunyu-bisync:…) is skipped; the proved "
                 "theorem carries the first-argument hypothesis (fgn_of_keys shows it follows from the keys hypothesis when the first argument is a key)",
@@ -104,10 +117,12 @@ MANIFEST = {
             "outside the reserved namespace, whatever values it carries, comes out as exactly one unit with exactly its commands or stops the replay; "
             "(exactly_once_and_quiesce) for all interleavings of client writes, ticks, expiries, link steps, snapshot units and bookkeeping at two "
             "sites, each link's commits are exactly the consumed client blocks, once each, and after the last client block further link steps change "
-            "nothing. Tied to the code by differential correspondence of the predicates, the parser, the propagation double and whole closed-loop "
+            "nothing; (no_loop_no_false_suppression) the same at full strength for ANY list of events each satisfying a condition on the event alone — "
+            "restarts / reconnects of either syncer included, BookClean derived from the global invariant (bookclean_derived) instead of assumed; "
+            "(D31_counterexample) the statement with databases is refuted: the one known exception. Tied to the code by differential correspondence of the predicates, the parser, the propagation double and whole closed-loop "
             "histories through the real parser/commit code.",
-    "note": "trusted: Lean kernel, the `propagate` transcription of Redis's propagation rewrites, extractor, harness doubles; the world theorem assumes clean "
-            "propagation of bookkeeping requests per event (partial)",
+    "note": "trusted: Lean kernel, the `propagate` transcription of Redis's propagation rewrites, extractor, harness doubles; the global theorem assumes "
+            "nothing about states (event-local conditions only); databases are the known exception (D31)",
     "technique": "Lean 4 proof (parser lemmas over filtered block bodies, shape lemma for propagate, two-site invariant by induction over event lists) + "
                  "differential correspondence + closed-loop monitors",
 }
